@@ -53,6 +53,9 @@ def main(argv=None):
                 bad += 1
                 print(tail)
     print('%d mutants, %d missed' % (len(ms), bad))
+    if not argv:
+        import corrupt
+        bad += corrupt.main()
     return 0 if bad == 0 else 1
 
 
